@@ -46,6 +46,7 @@ type FuncContract struct {
 	Requires   []*Clause
 	Ensures    []*Clause
 	AtCall     []*Clause // assertions before calls of a named callee (Clause.Target = callee name)
+	AtGo       []*Clause // assertions before go statements of a named callee
 	AtSend     []*Clause // assertions before every channel send in the function
 	Assumes    []*Clause // assumed at call sites, not checked against the body (listed as assumptions)
 	Invariants []*Clause
@@ -388,6 +389,17 @@ func (cs *ContractSet) parseFile(path, pkgPath string) error {
 				}
 				c.Target = fs[0]
 				cur.AtCall = append(cur.AtCall, c)
+			case "atgo":
+				fs := strings.SplitN(rest, " ", 2)
+				if len(fs) < 2 {
+					return errf("expected: atgo <callee> label: expr")
+				}
+				c, err := mkClause("atgo", strings.TrimSpace(fs[1]))
+				if err != nil {
+					return err
+				}
+				c.Target = fs[0]
+				cur.AtGo = append(cur.AtGo, c)
 			case "atsend":
 				c, err := mkClause("atsend", rest)
 				if err != nil {
